@@ -139,5 +139,7 @@ def apply_gv(cfg):
         elif cfg["form"] == "R_fs":
             gv(R=R, fs=fs, **kw)
         else:
+            if kw:
+                gv(**kw)
             return 16, 1e9, 16e9
     return sps, R, fs
